@@ -27,6 +27,10 @@
 (*   inc    u          `x = u + 1`      lag u         `x = u(k-1)`  (-> Lagged list)  *)
 (*   exo    p          `x = [p1, ...]` in the exogenous section                       *)
 (*   time              `x = k`  (the parser adds  t = k  itself)                      *)
+(*   neg    u          `x = -u`   NOT an alias: FindExactMatches leaves it alone      *)
+(*   sq u  `x = u**2`   nsq u  `x = -u**2` (= -(u**2))   dbl u  `x = 2*u`             *)
+(*   diff u v  `x = u - v`    (uses in which a textual substitution of u by a signed  *)
+(*                             expression without parentheses would change the value) *)
 (* Token replacement is whole-name substitution in u and v.                           *)
 (*                                                                                    *)
 (* Sol(sys) is the per-period meaning of such a system when it is acyclic within the  *)
@@ -41,6 +45,9 @@ CONSTANTS
     Vars,           \* sequence of variable names, in declaration order
     KindsAt,        \* sequence: KindsAt[i] = set of definition kinds allowed for Vars[i]
     ICsAt,          \* sequence: ICsAt[i] = set of initial-condition choices for Vars[i] (NoIC = none)
+    LineOK(_, _, _, _, _),
+                    \* LineOK(i, d, ic, prevDefs, prevICs): slice of the instance - may Vars[i] be declared
+                    \* with definition d and initial condition ic after the lines declared so far
     ExoPaths,       \* function name -> sequence of MaxK+1 small integers
     ConstVal,       \* the integer constant used by kind "const"
     MinVars,        \* EndParse is allowed once this many variables are declared
@@ -63,8 +70,8 @@ IsAlias(d) == d.kind \in {"alias", "palias"}         \* CleanupRightHandSide(eqn
 
 (* list_tokens(): the NAME tokens of a definition *)
 Names(d) ==
-    CASE d.kind \in {"alias", "palias", "inc"} -> {d.u}
-      [] d.kind = "sum"                        -> {d.u, d.v}
+    CASE d.kind \in {"alias", "palias", "inc", "neg", "sq", "nsq", "dbl"} -> {d.u}
+      [] d.kind \in {"sum", "diff"}            -> {d.u, d.v}
       [] d.kind = "lag"                        -> {d.u, K}
       [] d.kind = "time"                       -> {K}
       [] OTHER                                 -> {}
@@ -79,6 +86,11 @@ Den(d, val) ==
       [] d.kind = "sum"                 -> val[d.u] + val[d.v]
       [] d.kind = "inc"                 -> val[d.u] + 1
       [] d.kind = "time"                -> val[K]
+      [] d.kind = "neg"                 -> 0 - val[d.u]
+      [] d.kind = "sq"                  -> val[d.u] * val[d.u]
+      [] d.kind = "nsq"                 -> 0 - val[d.u] * val[d.u]
+      [] d.kind = "dbl"                 -> 2 * val[d.u]
+      [] d.kind = "diff"                -> val[d.u] - val[d.v]
       [] OTHER                          -> Poison
 
 SeqVars(s) == { s[i].var : i \in 1..Len(s) }
@@ -143,13 +155,16 @@ SolUpTo(sys, k) ==          \* sequence of valuations, index k+1 = period k
 
 (* Well-posed = closed (every name is defined) and acyclic within the period (which excludes  *)
 (* in particular the alias cycles  a = b; b = a  the parser's documentation forbids and the   *)
-(* reducing parser answers with 'Equality loop').                                             *)
+(* reducing parser answers with 'Equality loop').  Bound of the instance, not of the code:     *)
+(* squares and lags are not mixed, so that no value is squared once per period and everything  *)
+(* stays far inside TLC's 32-bit integers.                                                     *)
 WellPosed(sys, alldefs) ==
     LET vars == SysVars(sys)
         base == [x \in vars \cup {K} |-> 0]
         r == Close(sys.endo, base, SeqVars(sys.exo) \cup SeqVars(sys.lagged) \cup {K}, Len(sys.endo))
     IN /\ \A x \in DOMAIN alldefs : Names(alldefs[x]) \subseteq vars \cup {K}
        /\ SeqVars(sys.endo) \subseteq r.known
+       /\ (\E x \in DOMAIN alldefs : alldefs[x].kind \in {"sq", "nsq"}) => sys.lagged = << >>
 
 ----------------------------------------------------------------------------
 VARIABLES phase,    \* "parse" | "find" | "move" | "loop" | "done" | "error"
@@ -257,6 +272,9 @@ Options(i) ==
           \cup { D("lag", u, "", 0, << >>) : u \in NameSet }
           \cup { D("exo", "", "", 0, ExoPaths[x]) }
           \cup { TimeDef }
+          \cup { D(kd, u, "", 0, << >>) : kd \in {"neg", "sq", "nsq"}, u \in others }
+          \cup { D("dbl", u, "", 2, << >>) : u \in others }
+          \cup { D("diff", q[1], q[2], 0, << >>) : q \in { r \in others \X others : r[1] # r[2] } }
     IN { d \in cands : d.kind \in KindsAt[i] }
 
 ParseLine(x, d, ic) ==
@@ -275,9 +293,11 @@ LoopExit         == phase = "loop" /\ Set(LoopExitOp(St))
 
 NDeclared == Len(endo) + Len(lagged) + Len(exo)
 
-Next == \/ /\ NDeclared < Len(Vars)
+Next == \/ /\ phase = "parse"
+           /\ NDeclared < Len(Vars)
            /\ \E d \in Options(NDeclared + 1), ic \in ICsAt[NDeclared + 1] :
-                 ParseLine(Vars[NDeclared + 1], d, ic)
+                 /\ LineOK(NDeclared + 1, d, ic, all, ics)
+                 /\ ParseLine(Vars[NDeclared + 1], d, ic)
         \/ EndParse
         \/ FindExactMatches
         \/ Rebuild
